@@ -21,6 +21,7 @@
 import Lumina.Props.C03
 import Lumina.Model.HeaderVerifyBridge
 import Lumina.Model.C01Consts
+import Lumina.Proofs.InjectiveWitness
 
 namespace Lumina.Props.C01
 open Lumina.Model.Commit Lumina.Model.HeaderVerify Lumina.Gen.C01 Lumina.Proofs.Commit
@@ -599,6 +600,18 @@ theorem accepted_binds {S : Type} (P : Prims S) (eh : ExtHeader S)
   simp only [decide_true] at hs
   simp [hacc, hb, hwf, hw, hs]
 
+/-- the structural part of `accepted_binds` needs no hypothesis on the stored total -/
+theorem accepted_binds_structure {S : Type} (P : Prims S) (eh : ExtHeader S) :
+    specAcceptedStructure (toView P eh) (decide (validate P sourceConsts eh = .ok)) = true := by
+  unfold specAcceptedStructure
+  by_cases hacc : validate P sourceConsts eh = .ok
+  case neg => simp [hacc]
+  obtain ⟨h1, h2, h3, h4, h5, h6, h7, _, h9⟩ := (validate_ok_iff P sourceConsts eh).mp hacc
+  have hb : bound (toView P eh) = true := (bound_iff P eh).mpr ⟨h4, h5, h6, h7⟩
+  have hwf : wellFormed (toView P eh) = true := (wellFormed_iff P eh h6).mpr ⟨h1, h2, h3⟩
+  have hw : widthOK (toView P eh) = true := (widthOK_iff P eh).mpr h9
+  simp [hacc, hb, hwf, hw]
+
 /-- the spec's "entry k is consumed by the 2/3 tally" is the model's `preOK` -/
 theorem tallied_preOK {S : Type} (P : Prims S) (eh : ExtHeader S) (k : Nat)
     (ht : tallied (toView P eh) k = true) : preOK sourceConsts eh k := by
@@ -740,5 +753,110 @@ example : tallied (toView wP wEH) 3 = false := by decide
 example : honest (toView wP wEH) (sigOracle wP wEH) = true := by decide
 example : validate wP sourceConsts (setEntry wEH 1 { wEntry 1 with sig := some (wMsg, [99]) }) =
     .err (.commit .sigInvalid) := by decide
+
+
+/-! ### reduction forms: an accepted mutant EXHIBITS a collision (no hypothesis on the hashes)
+
+  `Function.Injective` on a hash is an idealisation (it IS satisfiable for the digest type used
+  here, see `injective_hypotheses_satisfiable` below, but not by SHA-256).  The following forms
+  assume nothing about the hashes: if a mutant in one of the hash-protected families is accepted
+  next to the original, the two explicit inputs below are a collision of the respective hash. -/
+
+theorem accepted_mutant_header_collision {S : Type} (P : Prims S) (c : Consts) (eh eh' : ExtHeader S)
+    (hacc : validate P c eh = .ok) (hacc' : validate P c eh' = .ok)
+    (hsame : eh'.commit.blockId.hash = eh.commit.blockId.hash)
+    (hdiff : eh'.header.canon ≠ eh.header.canon) :
+    eh'.header.canon ≠ eh.header.canon ∧ P.hHeader eh'.header.canon = P.hHeader eh.header.canon := by
+  have h := ((validate_ok_iff P c eh).mp hacc).2.2.2.2.2.2.1
+  have h' := ((validate_ok_iff P c eh').mp hacc').2.2.2.2.2.2.1
+  exact ⟨hdiff, by rw [← h', ← h, hsame]⟩
+
+theorem accepted_mutant_dah_collision {S : Type} (P : Prims S) (c : Consts) (eh eh' : ExtHeader S)
+    (hacc : validate P c eh = .ok) (hacc' : validate P c eh' = .ok)
+    (hsame : eh'.header.dataHash.getD none = eh.header.dataHash.getD none)
+    (hdiff : eh'.dah ≠ eh.dah) :
+    eh'.dah.rows ++ eh'.dah.cols ≠ eh.dah.rows ++ eh.dah.cols ∧
+      P.hDah (eh'.dah.rows ++ eh'.dah.cols) = P.hDah (eh.dah.rows ++ eh.dah.cols) := by
+  obtain ⟨_, _, _, _, h5, _, _, _, w, _, hw⟩ := (validate_ok_iff P c eh).mp hacc
+  obtain ⟨_, _, _, _, h5', _, _, _, w', _, hw'⟩ := (validate_ok_iff P c eh').mp hacc'
+  refine ⟨?_, by rw [h5', h5, hsame]⟩
+  intro hcat
+  have hl : eh.dah.cols.length = eh.dah.rows.length := by
+    unfold dahValidateBasic at hw
+    split at hw; · simp at hw
+    rename_i h; simpa using h
+  have hl' : eh'.dah.cols.length = eh'.dah.rows.length := by
+    unfold dahValidateBasic at hw'
+    split at hw'; · simp at hw'
+    rename_i h; simpa using h
+  have hlen : (eh'.dah.rows ++ eh'.dah.cols).length = (eh.dah.rows ++ eh.dah.cols).length := by rw [hcat]
+  simp only [List.length_append] at hlen
+  have hr : eh'.dah.rows.length = eh.dah.rows.length := by omega
+  obtain ⟨hrows, hcols⟩ := List.append_inj hcat hr
+  apply hdiff
+  cases hd : eh.dah; cases hd' : eh'.dah
+  simp_all
+
+theorem accepted_mutant_validator_collision {S : Type} (P : Prims S) (c : Consts) (eh eh' : ExtHeader S)
+    (hacc : validate P c eh = .ok) (hacc' : validate P c eh' = .ok)
+    (hsame : eh'.header.validatorsHash = eh.header.validatorsHash)
+    (hdiff : eh'.valset.hashed ≠ eh.valset.hashed) :
+    eh'.valset.hashed ≠ eh.valset.hashed ∧ P.hValset eh'.valset.hashed = P.hValset eh.valset.hashed := by
+  have h := ((validate_ok_iff P c eh).mp hacc).2.2.2.1
+  have h' := ((validate_ok_iff P c eh').mp hacc').2.2.2.1
+  exact ⟨hdiff, by rw [h', h, hsame]⟩
+
+/-! ### the hash and signature hypotheses are jointly satisfiable, together with acceptance -/
+
+open Lumina.Proofs.InjectiveWitness in
+/-- primitives with INJECTIVE hashes (explicit self-delimiting serialisations, proved injective in
+    `Proofs/InjectiveWitness.lean`) and a binding, unique signature scheme -/
+def wPinj : Prims WS :=
+  { hHeader := hHeaderInj, hValset := hValsetInj, hDah := hDahInj,
+    sigValid := fun pk m s => decide (s = (m, pk)) }
+
+theorem injective_hypotheses_satisfiable :
+    Function.Injective wPinj.hHeader ∧ Function.Injective wPinj.hValset ∧
+    Function.Injective wPinj.hDah ∧ SigUnique wPinj ∧ SigBindsMsg wPinj := by
+  refine ⟨Lumina.Proofs.InjectiveWitness.hHeaderInj_inj, Lumina.Proofs.InjectiveWitness.hValsetInj_inj,
+    Lumina.Proofs.InjectiveWitness.hDahInj_inj, ?_, ?_⟩
+  · intro pk m s s' h1 h2
+    simp only [wPinj, decide_eq_true_eq] at h1 h2
+    rw [h1, h2]
+  · intro pk m m' s h1 h2
+    simp only [wPinj, decide_eq_true_eq] at h1 h2
+    rw [h1] at h2
+    exact (Prod.mk.inj h2).1
+
+/-- the header of `wEH` with the hashes it carries COMPUTED by the injective hashes -/
+def wHeaderInj : HeaderF :=
+  { wEH.header with
+    validatorsHash := wPinj.hValset wEH.valset.hashed
+    dataHash := some (wPinj.hDah (wEH.dah.rows ++ wEH.dah.cols)) }
+def wBlockIdInj : BlockId := { hash := wPinj.hHeader wHeaderInj.canon, pst := 1, psh := none }
+def wMsgInj : VoteMsg := { chainId := [], height := 2, round := 0, blockId := wBlockIdInj, ts := 0 }
+def wEntryInj (i : UInt8) : EntryF WS := { flag := .commit, addr := [i], ts := 0, sig := some (wMsgInj, [i]) }
+def wEHinj : ExtHeader WS :=
+  { wEH with
+    header := wHeaderInj
+    commit := { height := 2, round := 0, blockId := wBlockIdInj,
+                sigs := [wEntryInj 0, wEntryInj 1, wEntryInj 2, wEntryInj 3] } }
+
+/-- non-vacuity: with injective hashes and a binding signature scheme, an honest header IS accepted … -/
+theorem wEHinj_accepted : validate wPinj sourceConsts wEHinj = .ok := by decide
+
+-- … and the hash-protected mutants are rejected by the theorems (all hypotheses discharged)
+example : validate wPinj sourceConsts { wEHinj with header := { wHeaderInj with time := 5 } } ≠ .ok :=
+  mutation_rejects_header_field wPinj sourceConsts wEHinj _ injective_hypotheses_satisfiable.1
+    wEHinj_accepted rfl (by decide)
+example : validate wPinj sourceConsts { wEHinj with dah := { rows := [[], [1]], cols := [[], []] } } ≠ .ok :=
+  mutation_rejects_dah wPinj sourceConsts wEHinj _ injective_hypotheses_satisfiable.2.2.1
+    wEHinj_accepted rfl (by decide)
+example : validate wPinj sourceConsts
+    { wEHinj with valset := { wEHinj.valset with vals := [⟨[0], [0], 1⟩, ⟨[1], [1], 1⟩, ⟨[2], [2], 1⟩, ⟨[9], [3], 1⟩] } } ≠ .ok :=
+  mutation_rejects_validator wPinj sourceConsts wEHinj _ injective_hypotheses_satisfiable.2.1
+    wEHinj_accepted rfl (by decide)
+example : validate wPinj sourceConsts { wEHinj with header := { wHeaderInj with time := 5 } } =
+    .err .commitBlockIdHash := by decide
 
 end Lumina.Props.C01
